@@ -38,7 +38,12 @@ type standardRenderer struct {
 	linesRendered      int
 	altLinesRendered   int
 	useANSICompressor  bool
-	once               sync.Once
+
+	// listening is whether a listen goroutine is running, i.e. whether there
+	// is someone to hand the stop signal to. Guarded by listenMtx, which also
+	// serializes starting and halting the renderer.
+	listenMtx sync.Mutex
+	listening bool
 
 	// cursor visibility state
 	cursorHidden bool
@@ -84,6 +89,9 @@ func newRenderer(out io.Writer, useANSICompressor bool, fps int) renderer {
 
 // start starts the renderer.
 func (r *standardRenderer) start() {
+	r.listenMtx.Lock()
+	defer r.listenMtx.Unlock()
+
 	if r.ticker == nil {
 		r.ticker = time.NewTicker(r.framerate)
 	} else {
@@ -92,19 +100,32 @@ func (r *standardRenderer) start() {
 		r.ticker.Reset(r.framerate)
 	}
 
-	// Since the renderer can be restarted after a stop, we need to reset
-	// the done channel and its corresponding sync.Once.
-	r.once = sync.Once{}
-
+	if r.listening {
+		return
+	}
+	r.listening = true
 	go r.listen()
+}
+
+// halt tells the listen goroutine to return and waits until it has taken
+// notice. It does nothing if the renderer is not running: it has not been
+// started yet (a kill while the program is still starting up) or has already
+// been halted.
+func (r *standardRenderer) halt() {
+	r.listenMtx.Lock()
+	defer r.listenMtx.Unlock()
+
+	if !r.listening {
+		return
+	}
+	r.done <- struct{}{}
+	r.listening = false
 }
 
 // stop permanently halts the renderer, rendering the final frame.
 func (r *standardRenderer) stop() {
 	// Stop the renderer before acquiring the mutex to avoid a deadlock.
-	r.once.Do(func() {
-		r.done <- struct{}{}
-	})
+	r.halt()
 
 	// flush locks the mutex
 	r.flush()
@@ -136,9 +157,7 @@ func (r *standardRenderer) execute(seq string) {
 // kill halts the renderer. The final frame will not be rendered.
 func (r *standardRenderer) kill() {
 	// Stop the renderer before acquiring the mutex to avoid a deadlock.
-	r.once.Do(func() {
-		r.done <- struct{}{}
-	})
+	r.halt()
 
 	r.mtx.Lock()
 	defer r.mtx.Unlock()
